@@ -38,6 +38,10 @@ var registry = map[string]reflect.Type{
 	"D3":     reflect.TypeOf(fam.D3{}),
 	"D2":     reflect.TypeOf(fam.D2{}),
 	"D1":     reflect.TypeOf(fam.D1{}),
+	"G3":     reflect.TypeOf(fam.G3{}),
+	"G2":     reflect.TypeOf(fam.G2{}),
+	"G1":     reflect.TypeOf(fam.G1{}),
+	"ONest":  reflect.TypeOf(fam.ONest{}),
 	"Alias":  reflect.TypeOf(fam.Alias{}),
 	"Alias2": reflect.TypeOf(fam.Alias2{}),
 }
@@ -52,4 +56,6 @@ var constructors = map[string]interface{}{
 	"D3":     fam.NewD3WithDefaultValues,
 	"D2":     fam.NewD2WithDefaultValues,
 	"D1":     fam.NewD1WithDefaultValues,
+	"G3":     fam.NewG3WithDefaultValues,
+	"G1":     fam.NewG1WithDefaultValues,
 }
